@@ -100,7 +100,7 @@ def tasks(tier, seed):
                   ((3, 1, 4, False, True), {'shrink': False, 'NL': 2}), ((2, 1, 4, False, True), {'shrink': True, 'NL': 2, 'fine_only_dt': True}), ((3, 1, 4, True, True), {'shrink': True, 'NL': 2, 'fine_only_dt': True})]):
         T.append(('hist',) + h + ([], o))
     # restarts that change the step size with the shipped InterpolateBetweenRestarts controller loaded; retry budget exhausted with and without a crash
-    for h in [(1, 1, 3, False, False), (1, 1, 3, False, True), (2, 1, 3, False, False)]:
+    for h in [(1, 1, 3, False, False), (1, 1, 3, False, True), (2, 1, 3, False, False), (3, 2, 4, False, False)]:
         T.append(('hist',) + h + ([], {'shrink': True, 'interp': True}))
     # steps that stop by a residual tolerance (every convergence pattern, later steps converging first included) with one restart request
     for h, K in ([((2, 1, 3, False, True), 2), ((3, 1, 3, False, True), 2)] if quick else [((2, 1, 3, False, True), 3), ((3, 1, 4, False, True), 2), ((2, 1, 3, True, True), 2), ((3, 1, 3, False, False), 2)]):
@@ -1092,7 +1092,7 @@ def hist_case(rep, NP, MAXR, NSTEPS, FIRST, CRASH, prefix, pid=PID, clauses=None
         nbad += 1
         where = 'later-slot' if any(l[0] > 0 and l[2] for l in p.result['log']) else 'first-slot'
         for b in bad:  # one report per distinct clause / call-site class
-            key = f'{pid}/{b[0]}/{where}/first{int(FIRST)}'
+            key = f'{pid}/{b[0]}/{where}/first{int(FIRST)}' + ('/interpolate-between-restarts/three-or-more-steps-per-block' if hist_interp(shrink) and NP >= 3 else '')
             if key in seen:
                 continue
             seen.add(key)
